@@ -7,9 +7,15 @@ CHECKS="${@:-$P}"
 SRC=/tmp/seed-$P/SEED/$K
 OUT=/verif/seeded/$P-$K
 mkdir -p $OUT
-cp $SRC/patch.diff $OUT/patch.diff
-DEMO=$(ls $SRC/*_test.go 2>/dev/null | head -1)
-[ -n "$DEMO" ] && cp $DEMO $OUT/
+if [ -d $SRC ]; then
+  cp $SRC/patch.diff $OUT/patch.diff
+  DEMO=$(ls $SRC/*_test.go 2>/dev/null | head -1)
+  [ -n "$DEMO" ] && cp $DEMO $OUT/
+else
+  # re-evaluation of a stored seed (the sub-agent's worktree is gone)
+  SRC=$OUT
+  DEMO=$(ls $OUT/*_test.go 2>/dev/null | head -1)
+fi
 LOC=$(python3 -c "
 import json,re
 l=json.load(open('$SRC/meta.json')).get('demo_location','').replace('/tmp/seed-$P/','')
@@ -23,9 +29,9 @@ res_apply=ok
 # demo without change
 demo_clean=skipped; demo_mut=skipped; suite=skipped
 if [ -n "$DEMO" ] && [ -n "$LOC" ]; then
-  (cd $WT && git stash -q) ; cp $DEMO $WT/$LOC/zz_seed_demo_test.go
+  (cd $WT && git apply -R $OUT/patch.diff) ; cp $DEMO $WT/$LOC/zz_seed_demo_test.go
   (cd $WT/$LOC && $G go test -vet=off -count=1 -run 'Seed|seed' . > $OUT/demo_clean.log 2>&1) && demo_clean=pass || demo_clean=FAIL
-  rm $WT/$LOC/zz_seed_demo_test.go; (cd $WT && git stash pop -q)
+  rm $WT/$LOC/zz_seed_demo_test.go; (cd $WT && git apply $OUT/patch.diff)
   cp $DEMO $WT/$LOC/zz_seed_demo_test.go
   (cd $WT/$LOC && $G go test -vet=off -count=1 -run 'Seed|seed' . > $OUT/demo_mutant.log 2>&1) && demo_mut=pass || demo_mut=FAIL
   rm $WT/$LOC/zz_seed_demo_test.go
